@@ -240,6 +240,13 @@ pub fn gen_v1(t: &mut Tape) -> Case {
     }
     let unknown_base = p.proto == b"UNKNOWN";
     match element {
+        "keyword" if t.chance(1, 3) => {
+            p.keyword = gen::corrupt_word(t, "PROXY");
+        }
+        "protocol" if t.chance(1, 2) => {
+            let w = String::from_utf8(p.proto.clone()).unwrap_or_default();
+            p.proto = gen::corrupt_word(t, &w);
+        }
         "keyword" => {
             p.keyword = t.pick(&["proxy", "Proxy", "PROX", "PROXYY", "", "PROXY\0", "XPROXY", "PROXI", "PR0XY", "P", "PROXY\t", "\u{ff30}ROXY", "PROXY\n"]).as_bytes().to_vec();
         }
